@@ -1107,6 +1107,11 @@ func (f *Flow) assign(env Env, t *Term, s ISet) {
 				f.evalStruct(t, env, &fl)
 				if !fl.Overflow {
 					f.assign(env, t.A, s.mapMono(func(x *big.Int) *big.Int { return new(big.Int).Add(x, c) }))
+				} else if bits, signed, ok := intTypeInfo(f.w, t.T); ok {
+					// modular arithmetic is a bijection: (x - c) mod 2^n ∈ s ⇔ x ∈ (s + c) mod 2^n
+					// (the one-comparison range test `tag-lo <= hi-lo` on an unsigned type)
+					nw, _ := s.mapMono(func(x *big.Int) *big.Int { return new(big.Int).Add(x, c) }).wrap(bits, signed)
+					f.assign(env, t.A, nw)
 				}
 			}
 		case token.SHR:
